@@ -62,6 +62,7 @@ def exec_scenario(scn):
         burst=scn.get("burst", True),
         record_sites=scn.get("record_sites") or None,
         opcodes=bool(scn.get("opcodes")),
+        cancel_exc=MemoryError if scn.get("cancel_exc") == "MemoryError" else None,
     )
     if replay:
         baton.exit_table = {int(t): to for t, to in (scn.get("exits") or [])}
@@ -138,6 +139,12 @@ def exec_scenario(scn):
                 baton.end_op(t)
                 outcome = ser.citations(res)
             except (SimCancelled, SimOverrun, SimDeadlock):
+                raise
+            except MemoryError:
+                if scn.get("cancel_exc") == "MemoryError":
+                    # the injected allocation failure came out of the call: the call
+                    # failed, as it may; nothing to judge (like a cancellation)
+                    raise SimCancelled()
                 raise
             except Exception as e:
                 baton.end_op(t)
@@ -1019,7 +1026,12 @@ class Checker:
                 other = dict(base, threads=[[opa] + twins_a + [dict(opa), opb, {"op": "RC"}]], exits=[],
                              after_cancel="twins")
                 for ci, k in enumerate(cpoints):
-                    yield dict(retry, table=[[0, 0, k, "cancel", None]])
+                    # every second point: the failure is a MemoryError raised at that
+                    # line (an allocation that fails) instead of an asynchronous
+                    # BaseException -- a handler that swallows it makes the call
+                    # *return*, and what it returns is judged
+                    yield dict(retry, table=[[0, 0, k, "cancel", None]],
+                               **({"cancel_exc": "MemoryError"} if (ci + pi) % 2 else {}))
                     if ci % 3 == pi % 3:
                         yield dict(other, table=[[0, 0, k, "cancel", None]])
 
@@ -1038,7 +1050,9 @@ class Checker:
                 else:
                     done[1] += 1
                     sw["cancellation_runs"] += 1
-                    absorb(scn, r, ("cancel-sweep", pi, scn["table"][0][2], scn.get("after_cancel")))
+                    if scn.get("cancel_exc"):
+                        sw["of_which_injected_MemoryError"] = sw.get("of_which_injected_MemoryError", 0) + 1
+                    absorb(scn, r, ("cancel-sweep", pi, scn["table"][0][2], scn.get("after_cancel"), scn.get("cancel_exc")))
 
             forkpool.run_jobs(jobs(), exec_scenario, workers=_cpu(), timeout=90, on_result=got,
                               deadline=t_end if sw["pairs"] > 2 else t_hard,
@@ -1184,8 +1198,9 @@ class Checker:
                 return dict(base, table=[[0, 0, prov[2], "switch", 1], [1, 0, prov[3], "switch", 0]])
             opa, opb = base["threads"][0][0], base["threads"][1][0]
             twins = (self.sweep_twins.get(prov[1]) or []) if (len(prov) > 3 and prov[3] == "twins") else []
+            extra = {"cancel_exc": prov[4]} if len(prov) > 4 and prov[4] else {}
             return dict(base, threads=[[opa] + twins + [dict(opa), opb, {"op": "RC"}]], exits=[],
-                        table=[[0, 0, prov[2], "cancel", None]])
+                        table=[[0, 0, prov[2], "cancel", None]], **extra)
         return None
 
     # -- phase B: hash contexts -----------------------------------------------
